@@ -8,6 +8,7 @@ from pycoin.networks import parseable_str as _ps
 from pycoin.key.electrum import initial_key_to_master_key as _stretch
 
 PROP = "C18"
+EXTRA_PROPS = ["C18compose"]   # composition theorems (see DESIGN.md section 0)
 DRIVER = "C18"
 INTERACTIVE = True
 RULE = ("correspondence: one driver line per (entry point, network, text) or (serialiser, network, text); distinct = "
